@@ -107,6 +107,19 @@ def run(chk, prog):
                           "accumulation %s[%s] %s ... starts from a plain store to the same cell in the same outer iteration" % (e.buf, e.lo, e.what),
                           "%s:accumulate:%s" % (op, e.buf))
                 n2 += 1
+    # a sum built in a local of the call and stored once is history-free by construction (a local starts from its initialiser in every
+    # call): such stores are instances of the rule too, so that moving the accumulation into a local does not leave the rule empty
+    for op in ops:
+        ev, sc_ = m.events[op]
+        loc_acc = {a_.base for a_ in sc_.accesses if a_.kind == "store" and a_.idx is None and a_.op in ("+=", "-=", "*=", "/=")}
+        for a_ in sc_.accesses:
+            if a_.kind == "store" and a_.idx is not None and a_.base.startswith("_") and a_.op == "=" and a_.value is not None and \
+                    any(str(t_) in loc_acc for t_ in a_.value.free_symbols):
+                inits = [b_ for b_ in sc_.accesses if b_.kind == "store" and b_.idx is None and b_.op == "=" and b_.base in loc_acc and b_.seq < a_.seq]
+                chk.check(bool(inits), "R2", A.loc(m.fns[op], {"line": a_.line}),
+                          "%s[%s] is stored from a local accumulator that starts from a plain store in this call" % (a_.base, ", ".join(str(i_) for i_ in a_.idx)),
+                          "%s:accumulate-local:%s" % (op, a_.base))
+                n2 += 1
     chk.floor("R2-accumulations", n2, 1)
     # ---- R3 ------------------------------------------------------------------------------------
     setup_names = {f["qname"] for f in m.setup}
